@@ -24,6 +24,13 @@ var evalHashes = [][3]string{
 	{"interp/typecheck.go", "typecheck", "assignment"},
 	{"interp/typecheck.go", "typecheck", "assignExpr"},
 	{"interp/typecheck.go", "", "zeroConst"},
+	{"interp/typecheck.go", "typecheck", "constExpr"},
+	{"interp/typecheck.go", "typecheck", "constOverflow"},
+	{"interp/typecheck.go", "", "compareConst"},
+	{"interp/typecheck.go", "typecheck", "logicalExpr"},
+	{"interp/value.go", "", "constValue"},
+	{"interp/cfg.go", "", "isUntypedConst"},
+	{"interp/cfg.go", "", "isConstString"},
 	{"interp/op.go", "", "addConst"}, {"interp/op.go", "", "subConst"}, {"interp/op.go", "", "mulConst"},
 	{"interp/op.go", "", "quoConst"}, {"interp/op.go", "", "remConst"}, {"interp/op.go", "", "andConst"},
 	{"interp/op.go", "", "orConst"}, {"interp/op.go", "", "xorConst"}, {"interp/op.go", "", "andNotConst"},
@@ -46,6 +53,7 @@ var actNames = map[string]string{
 var tokNames = map[string]string{
 	"ADD": "add", "SUB": "sub", "MUL": "mul", "QUO": "quo", "QUO_ASSIGN": "quoAssign", "REM": "rem", "AND": "and",
 	"OR": "or", "XOR": "xor", "AND_NOT": "andNot", "SHL": "shl", "SHR": "shr", "NOT": "not",
+	"EQL": "eql", "NEQ": "neq", "LSS": "lss", "LEQ": "leq", "GTR": "gtr", "GEQ": "geq",
 }
 
 func tokOf(e ast.Expr) string {
@@ -280,6 +288,10 @@ func evalFacts(repo string) (string, error) {
 	if err != nil {
 		return "", err
 	}
+	_, fT, err := common.ParseFile(repo, "interp/typecheck.go")
+	if err != nil {
+		return "", err
+	}
 	var b strings.Builder
 	// constOp map
 	var ops, fns []string
@@ -314,10 +326,17 @@ func evalFacts(repo string) (string, error) {
 			continue
 		}
 		seen[fn] = true
-		ff := analyseFold(common.FindFunc(fO, "", fn))
+		fd := common.FindFunc(fO, "", fn)
+		if fd == nil {
+			fd = common.FindFunc(fT, "", fn) // compareConst lives in typecheck.go
+		}
+		ff := analyseFold(fd)
 		entry := ".other"
 		if ff.recognised {
 			entry = "." + ff.entry
+		}
+		if compareFold(fd) {
+			entry = ".compare"
 		}
 		tok := leanTok(ff.tok)
 		if ff.tok == "var:operator" {
@@ -333,6 +352,11 @@ func evalFacts(repo string) (string, error) {
 	fmt.Fprintf(&b, "/-- interp/op.go: the constant arm (and the operators of the typed arms) of each folding function -/\ndef folds : List FoldFn :=\n  [%s]\n", strings.Join(folds, ",\n   "))
 	fmt.Fprintf(&b, "/-- interp/op.go quoConst: `if <cond> { operator = token.<then> } else { operator = token.<else> }` -/\ndef quoSwitch : QuoSwitch :=\n  { cond := %s, rule := %s, thenTok := %s, elseTok := %s }\n",
 		common.LeanStr(quo.quoCond), quoRule(fO, quo.quoCond), leanTok(quo.quoThen), leanTok(quo.quoElse))
-	fmt.Fprintf(&b, "def evalFacts : EvalFacts := { constOp := constOp, folds := folds, quo := quoSwitch, fixSkipsConst := %s }\n", fixSkipsConst(fC))
+	chk, err := checkFacts(repo)
+	if err != nil {
+		return "", err
+	}
+	b.WriteString(chk)
+	fmt.Fprintf(&b, "def evalFacts : EvalFacts :=\n  { constOp := constOp, folds := folds, quo := quoSwitch, fixSkipsConst := %s, constToken := constToken, chk := checkFacts }\n", fixSkipsConst(fC))
 	return b.String(), nil
 }
